@@ -41,6 +41,8 @@ class HangDetected(BaseException):
     Sequence.from_bytes does not terminate.  BaseException so that the codec's `except Exception` cannot wrap it."""
 
 
+_ORDER_ALT = [0]
+
 def codec_module():
     common.import_toolkit()
     import codec
@@ -121,7 +123,9 @@ def _build_field(codec, f, hang_guard):
             else:
                 items.append(codec.BitField(pyname(nm), bl=bl, val=fixed))
         kw = {"len": l[1]} if (l[0] == "LFix" and l[1] >= 1) else {}
-        o = codec.BitFieldSet(set=tuple(items), order="lsb" if lsb else "msb", **kw)
+        # both spellings the class documents for each bit order ('lsb' / 'little', 'msb' / 'big'), alternating
+        _ORDER_ALT[0] += 1
+        o = codec.BitFieldSet(set=tuple(items), order=(("lsb", "little") if lsb else ("msb", "big"))[_ORDER_ALT[0] % 2], **kw)
         return _attach(o, l, p, with_len=False)     # BitFieldSet re-defines get_len to its constant length
     if kind == "FEnv":
         _, nm, l, p, chk, body = f
